@@ -234,11 +234,22 @@ fn run_generic<VI: ValGen, VL: ValGen>(case: &Case, obs: &mut Obs) {
     let mut caches: Vec<Box<dyn IdpfCache>> = vec![make_cache(&case.cache), make_cache(&case.cache)];
     let mut off_path_deep = false;
     for (agg, pfx) in &case.history {
-        let agg = *agg as usize % 2;
         if !check_prefix(pfx, obs) {
             break;
         }
-        let p = pfx.idpf();
+        // a quarter of the evaluations hand over an input whose bit storage does not start at
+        // bit 0 of its first word (public From<BitVec> conversion); equal as a value
+        let sel = (*agg >> 1) as usize;
+        let head = if sel % 4 == 3 { [1usize, 1, 1, 2, 2, 3, 7, 33][(sel / 4) % 8] } else { 0 };
+        let agg = *agg as usize % 2;
+        let p = pfx.idpf_head(head);
+        if head != 0 {
+            if p != pfx.idpf() {
+                obs.fail("harness-unaligned-input", "harness: the unaligned input is not equal to the aligned one");
+                break;
+            }
+            obs.label("unaligned-input");
+        }
         let want = match eval_nc(agg, &p) {
             Ok(s) => enc_share(&s),
             Err(_) => continue,
@@ -364,7 +375,7 @@ impl Check for C06 {
     type Case = Case;
     const ID: &'static str = "C06";
     fn rule(&self) -> String {
-        "(enumerated) every tree of ≤ 6 bits (≤ 8 thorough) for 3 inputs × 4 value-type pairs: every prefix of every length evaluated under both keys and summed, compared with the programmed value (on path) or zero (off path); (generated) trees up to 400 bits, histories of 1..24 evaluations (on-path prefixes, siblings diverging at a generated depth, extensions of earlier prefixes, random strings) sharing one cache per aggregator among NoCache / HashMapCache / RingBufferCache(0..8,64) / a harness cache that refuses, forgets and evicts by a tape; every cached evaluation must equal the NoCache evaluation byte-for-byte; bad arguments ⇒ Err. Non-trivial = cache hit after an eviction/loss, or an off-path prefix diverging at depth ≥ 1; enumerated prefixes are distinct by construction, histories by case hash".into()
+        "(enumerated) every tree of ≤ 6 bits (≤ 8 thorough) for 3 inputs × 4 value-type pairs: every prefix of every length evaluated under both keys and summed, compared with the programmed value (on path) or zero (off path); (generated) trees up to 400 bits, histories of 1..24 evaluations (on-path prefixes, siblings diverging at a generated depth, extensions of earlier prefixes, random strings; a quarter of them handed over as bit vectors whose storage starts 1..33 bits into the first word) sharing one cache per aggregator among NoCache / HashMapCache / RingBufferCache(0..8,64) / a harness cache that refuses, forgets and evicts by a tape; every cached evaluation must equal the NoCache evaluation byte-for-byte; bad arguments ⇒ Err. Non-trivial = cache hit after an eviction/loss, or an off-path prefix diverging at depth ≥ 1; enumerated prefixes are distinct by construction, histories by case hash".into()
     }
     fn assumptions(&self) -> Vec<String> {
         vec!["Idpf::gen draws the two keys from the OS: correctness is perfect (every key pair), so verdicts do not depend on them; failures print the public share and keys as a witness".into()]
